@@ -146,7 +146,9 @@ func NewInProcessTransportListener(addr InProcessAddr) TransportListener {
 func (l *inProcessTransportListener) Close() error {
 	l.closedMu.Lock()
 	defer l.closedMu.Unlock()
+	inProcListenersMu.Lock()
 	delete(inProcListeners, l.addr)
+	inProcListenersMu.Unlock()
 	l.closed = true
 	l.done <- true
 	return nil
@@ -162,6 +164,8 @@ func (l *inProcessTransportListener) Listen(_ context.Context, addr net.Addr) er
 		return fmt.Errorf("empty in process address %s", inProcAddr)
 	}
 
+	inProcListenersMu.Lock()
+	defer inProcListenersMu.Unlock()
 	if _, ok := inProcListeners[inProcAddr]; ok {
 		return fmt.Errorf("a listerer is already active on address %s", inProcAddr)
 	}
@@ -202,10 +206,13 @@ func (l *inProcessTransportListener) newClient(addr InProcessAddr, bufferSize in
 }
 
 var inProcListeners = make(map[InProcessAddr]*inProcessTransportListener)
+var inProcListenersMu sync.RWMutex // protects inProcListeners
 
 // DialInProcess creates a new in process transport connection to the specified path.
 func DialInProcess(addr InProcessAddr, bufferSize int) (Transport, error) {
+	inProcListenersMu.RLock()
 	l := inProcListeners[addr]
+	inProcListenersMu.RUnlock()
 	if l == nil {
 		return nil, fmt.Errorf("in process connection refused on %s address", addr)
 	}
